@@ -93,6 +93,10 @@ class StubbornNet(Net):
         Net.__init__(self)
         self.stubborn = False
         self.on_stubborn_accept = None
+        # what a cancelled attempt's Deferred fails with: "cancelled" = the canceller fires nothing and Twisted fires
+        # CancelledError (a Deferred without a canceller behaves the same); "connecting" = ConnectingCancelledError,
+        # which is what Twisted's TCP4/TCP6/HostnameEndpoint/wrapClientTLS report; "other" = some other failure
+        self.cancel_kind = "cancelled"
 
     def _connect(self, host, port, factory):
         n = len(self.attempts)
@@ -113,6 +117,12 @@ class StubbornNet(Net):
                 if self.on_stubborn_accept is not None:
                     self.on_stubborn_accept(conn)
                 d.callback(proto)
+            elif self.cancel_kind == "connecting":
+                from twisted.internet import error
+
+                d.errback(error.ConnectingCancelledError(Addr(host, port)))
+            elif self.cancel_kind == "other":
+                d.errback(EndpointGaveUp("attempt abandoned"))
 
         d = defer.Deferred(cancel)
         p = Pending(self, n, host, port, factory, d)
@@ -162,6 +172,14 @@ def err_kind(f):
 
 class InjectedWriteError(Exception):
     pass
+
+
+class EndpointGaveUp(Exception):
+    """what an endpoint of kind "other" fails a cancelled connection attempt with"""
+
+
+class InjectedLossReason(Exception):
+    """a connectionLost reason that is neither ConnectionDone nor ConnectionLost"""
 
 
 class _LogTap(logging.Handler):
@@ -347,16 +365,26 @@ class BCRun(object):
             cid, expect = int(w[1]), w[2] == "1"
             from afkak.common import DuplicateRequestError
 
+            # the serial is taken BEFORE the call: should makeRequest fire other Deferreds whose callbacks make
+            # requests (re-entrantly, before it returns), those get later serials - the order of acceptance
             serial = self.serial
+            self.serial += 1
             pl = payload_for(cid, serial)
             self.by_serial[serial] = (cid, pl)
             try:
                 d = self.bc.makeRequest(cid, pl, expectResponse=expect)
             except DuplicateRequestError:
                 del self.by_serial[serial]
+                if self.serial == serial + 1:  # (raised before anything else could run)
+                    self.serial = serial
                 self.log.append("raise dup %d" % cid)
                 return
-            self.serial += 1
+            except BaseException:
+                # no Deferred was handed out: the number is not used up (the exception itself is logged by `ex`)
+                del self.by_serial[serial]
+                if self.serial == serial + 1:
+                    self.serial = serial
+                raise
             self.defs[cid] = d
             self.log.append("made %d %d" % (serial, cid))
             if len(w) > 3 and w[3] == "hook":
@@ -435,6 +463,10 @@ class BCRun(object):
             self.wfail = w[1] == "1"
         elif op == "stubborn":
             self.world.net.stubborn = w[1] == "1"
+        elif op == "ckind":
+            if w[1] not in ("cancelled", "connecting", "other"):
+                raise ValueError("unknown event %r" % (w,))
+            self.world.net.cancel_kind = w[1]
         elif op == "sync":
             # an endpoint whose connect() Deferred has ALREADY fired when connect() returns
             self.sync = w[1]
@@ -520,6 +552,7 @@ class BCRun(object):
             tuple(sorted((self.by_serial[k][0], tuple(tuple(a) for a in v)) for k, v in self.hooks.items())),
             self.world.net.stubborn,
             self.sync,
+            self.world.net.cancel_kind,
         )
 
 
@@ -534,13 +567,16 @@ def run_bc(header, events):
 
 def check_server_side(run, obs):
     """The broker end must have received exactly the `write` observations, per connection, in order."""
-    want = {}
+    want, odd = {}, []
     for ol in obs:
         for o in ol:
             w = o.split()
             if w[0] == "write":
-                want.setdefault(int(w[1]), []).append(int(w[2]))
-    problems = []
+                if w[2].lstrip("-").isdigit():
+                    want.setdefault(int(w[1]), []).append(int(w[2]))
+                else:  # bytes that are no request the harness handed over (`write <conn> ? …`): an observation, reported below
+                    odd.append(o)
+    problems = ["the implementation wrote bytes that are no known request: %s" % o[:120] for o in odd[:3]]
     for cid, frames in run.server_frames():
         got = []
         for f in frames:
@@ -670,7 +706,7 @@ class BootRun(object):
 
             def eb(f, k=k):
                 n = f.value.__class__.__name__
-                self.log.append("fire %d err %s" % (k, {"CancelledError": "cancelled", "ConnectionDone": "connLost", "ConnectionLost": "connLost"}.get(n, "other:" + n)))
+                self.log.append("fire %d err %s" % (k, {"CancelledError": "cancelled", "ConnectionDone": "connLost done", "ConnectionLost": "connLost lost", "InjectedLossReason": "connLost other"}.get(n, "other:" + n)))
 
             d.addCallbacks(lambda r, k=k: self.log.append("fire %d ok %s" % (k, hx(bytes(r)))), eb)
         elif op == "bs-cancel":
@@ -692,9 +728,15 @@ class BootRun(object):
             if self.lost:
                 self.log.append("badOp")
             else:
+                # the reason connectionLost() is called with: ConnectionDone (default), ConnectionLost, or an
+                # exception of our own (any other reason); the Deferreds must fail with exactly that reason
+                from twisted.internet import error
+
+                kind = w[1] if len(w) > 1 else "done"
                 self.lost = True
                 self.t.disconnecting = True
                 self.t.disconnected = True
+                self.t.disconnectReason = {"done": error.ConnectionDone("Connection done"), "lost": error.ConnectionLost("lost"), "other": InjectedLossReason("other")}[kind]
                 self.t.reportDisconnect()
         else:
             raise ValueError(w)
